@@ -362,19 +362,19 @@ def run(ctx):
     # beyond the bounds: twelve spines, three and four levels of nested splits, wide joins, operators in the right-most columns
     from .. import docspace as D
     big = Acc()
-    for h, seq, sd in D.wide_docs(seed) + D.huge_docs(seed + 5) + [
+    for h, seq, sd in D.wide_docs(seed) + D.huge_docs(seed + 5) + D.giant_jobs(seed) + [
             (['**kern', '**text', '**kern'], ['k', 'd', 'S0', 'S0', 'S0', 'd', 'S3', 'd', 'Y0', 'd', 'J0', 'J0', 'd', 'X1', 'd', 'b', 'S2', 'S3', 'd', 'J2', 'J2', 'd'], seed),
             (['**kern', '**kern'], ['d', 'S1', 'S2', 'S3', 'S4', 'd', 'J3', 'd', 'S0', 'S0', 'd', 'g', 'J0', 'J0', 'd', 'J1', 'J1', 'J1', 'd'], seed + 1),
             (['**text', '**kern', '**dynam', '**kern'], ['d', 'S3', 'S4', 'S5', 'd', 'S1', 'd', 'X0', 'd', 'J3', 'J3', 'J3', 'd', 'J0', 'd'], seed + 2),
             (['**kern', '**kern'], ['d', 'S0', 'S0', 'S0', 'S0', 'd', 'Z0', 'd', 'S3', 'd', 'J0', 'J0', 'd'], seed + 3),
             (['**kern', '**text', '**kern'], ['d', 'S2', 'S2', 'S2', 'S2', 'S2', 'd', 'W3', 'd', 'J2', 'd', 'J2', 'd'], seed + 4)]:
-        m = X.seq_model(h, seq, sd, cap=16)
+        m = D.materialise((h, seq, sd), cap=16)
         if m is None:
             big.caps.append(f'HARNESS-ERROR: hand-made sequence not enabled: {seq}')
             big.count('harness_errors')
             continue
         hist = [('g', r) if k == 'g' else [c.spec for c in r] for k, r in m.rows[m.header_row + 1:]]
-        verify(big, h, hist[:-1] if m.width() == 0 else hist, label='beyond-bounds', close=True)
+        verify(big, h, hist[:-1] if m.width() == 0 else hist, pre=tuple(r for _k, r in m.rows[:m.header_row]), label='beyond-bounds', close=True)
         big.count('evaluations')
         big.nontriv(digest(m.text()))
     ctx.merge(big)
